@@ -395,6 +395,33 @@ def main():
         # re-evaluate "no longer reproduces" notes now that spec findings are known
         notes[:] = [n for n in notes if not any(fid in n for fid in seen_findings)]
 
+    # law ops: for ops listed in feed_ops the implementation's outcome is handed to the driver, which evaluates the
+    # specification's law predicates (Lean, Spec/…) on it and answers `ok` or `bad <which law>`.
+    feed_ops = spec.get("feed_ops", {})
+    n_fed = 0
+    if feed_ops:
+        idx = [i for i, l in enumerate(lines) if l.split(" ", 1)[0] in feed_ops]
+        flines = [feed_ops[lines[i].split(" ", 1)[0]] + " " + lines[i].split(" ", 1)[1] + " | " + impl[i] for i in idx]
+        fouts = run_driver(flines)
+        n_fed = len(flines)
+        for i, fl, fo in zip(idx, flines, fouts):
+            if fo == "ok":
+                continue
+            if fo.startswith("?"):
+                diffs.append((fl, impl[i], fo, "protocol"))
+                continue
+            hit = None
+            for f in open_f:
+                if R.in_region(f["region"], lines[i], impl[i], fo):
+                    hit = f
+                    break
+            if hit:
+                seen_findings.setdefault(hit["id"], (hit, lines[i], impl[i], fo))
+            else:
+                diffs.append((lines[i], impl[i], "law: " + fo, "law-violation"))
+        notes.append(f"law ops: {n_fed} reported outcomes checked against the Lean law predicates")
+        notes[:] = [n for n in notes if not any(fid in n for fid in seen_findings)]
+
     # extra (property-level predicates evaluated directly on implementation outputs)
     if extra:
         for v in extra(prop, lines, impl, model, open_f):
